@@ -9,6 +9,36 @@ COMMON_TB = ("Coq 8.16.1 kernel/coqc (vm_compute for closed witnesses, no native
              "see DESIGN.md section 9")
 
 CHECKS = {
+ 'C07': dict(
+   text="Theorems over the Gallina codec model (VLQ, lists, 10 consensus types): round trip for every well-formed value with any "
+        "trailing bytes, canonicity for EVERY byte string (decoding succeeds => re-encoding ++ rest = input), decoded values are "
+        "well formed, ids cached at decode time = hash of the canonical encoding, encoders injective; plus the refutation theorem "
+        "for the pre-fix lenient VLQ decoder. Unbounded in sizes. Wire messages (header + 7 messages) are tied by correspondence "
+        "only (round trip; their decoders ignore version/reserved bytes by design).",
+   note="The model is hand-written; the tie is a differential check of every decoder/encoder of /repo against the extracted model "
+        "(random well-formed values, trailing data, 8-16 byte-level mutations each, all VLQ strings of <= 2/3 bytes), field by "
+        "field. sha256d is an oracle (transcript).",
+   technique="Coq proof over hand model + extracted-model correspondence (differential) on all codecs; property oracle re-encode==consumed",
+   design="6/C07"),
+ 'C11': dict(
+   text="Theorem C11_spec: for every list of read chunks the frames delivered by the model of MessageReceiver.receive, and the point "
+        "and kind of refusal, equal those of the declarative stream grammar applied to the concatenation; corollary: any two "
+        "chunkings of the same stream behave identically. Unbounded in stream length and number/position of cuts.",
+   note="Hand model tied to the real MessageReceiver by running both on every 1-, 2-, 3-way and byte-wise cut of generated short "
+        "streams (valid, wrong magic, over-limit length incl. sign-bit lengths, partial tail) with the real and a small patched "
+        "size limit; observables: frames, refusal kind, residual receiver state.",
+   technique="Coq refinement proof (receiver refines stream grammar) + exhaustive 2/3-way cut correspondence against the real receiver",
+   design="6/C11"),
+ 'C17': dict(
+   text="Theorems: in the free (symbolic) hash algebra the root determines the ordered list for all non-empty lists (no premise); "
+        "transferred to any pairing function that is injective and domain-separated from leaf values (explicit premises; necessity of "
+        "separation recorded as a theorem); every inclusion proof built from the tree hashes to the root and contains entry i at "
+        "index i, for every list and position.",
+   note="Hash idealisations are hypotheses of the theorems, not axioms. Hand model tied to merkletree.py by comparing root, tree "
+        "shape and proofs for all lengths 1..33 (thorough ..80), all positions, lists with repeated entries, via sha256d oracle "
+        "transcripts (a model hash query the code never made is a disagreement).",
+   technique="Coq proof (symbolic hash + interpretation lemma; proof soundness by tree invariant) + extracted-model correspondence",
+   design="6/C17"),
  'C16': dict(
    text="Theorems over the definitions regenerated from /repo on every run (get_block_subsidy, validate_sashimi_range, "
         "params.py constants): value formula, antitone, zero from 31.5M, positive before, total over all heights = "
